@@ -15,6 +15,6 @@ Extraction "model.ml"
   rebuild_lit build_tt run run_infer
   verdict_fun verdict_model verdict_retain verdict_infer find_diff find_diff_any
   lex_raw tokenize parse eval_f parsed_formula parsed_of_tokens ident_names name_table name_of ordering_of_file cli
-  set_run set_ref h_new h_mk_choice h_mk_const
+  set_run set_ref set_runN set_refN h_new h_mk_choice h_mk_const
   dot_nodes dot_edges subterms label out_edges rebuild
   queens_form sudoku_form hints_of_text ascii_ws form_all form_max comp_dir comp_undir valid_output feasible read_graph aug copy_prefix fsem all_vars var_is_free.
